@@ -150,6 +150,9 @@ func (c *Ctx) staticCall(fr *Frame, st *State, reach T, fn *ssa.Function, args [
 	if fn.Parent() != nil && len(fn.Blocks) > 0 {
 		return c.inline(fr, st, reach, fn, args, cl, ct)
 	}
+	if r, ok := c.defaultStdCall(fn, st, key); ok {
+		return r
+	}
 	panic(unsupported("call to " + key + " (no contract, not inlinable)"))
 }
 
@@ -606,4 +609,65 @@ func (c *Ctx) doCopy(fr *Frame, st *State, reach T, cc *ssa.CallCommon, args []V
 		c.setElemArray(st, el, k, d.L[0], na)
 	}
 	return scalar(tInt, n)
+}
+
+
+// defaultStdCall: standard-library functions without a contract that cannot touch
+// the state contracts talk about. (a) Output-only functions (log.*, fmt.Print*):
+// no effect. (b) Functions of value-only packages (strings, strconv, unicode,
+// math, ...) whose parameters and results are scalars and strings: pure, result
+// unconstrained within its type. Both are recorded in the trusted base. Anything
+// else without a contract stays outside the subset.
+func (c *Ctx) defaultStdCall(fn *ssa.Function, st *State, key string) (Val, bool) {
+	pkg := pkgOf(fn)
+	if pkg == nil || fn.Signature.Recv() != nil {
+		return Val{}, false
+	}
+	path := pkg.Path()
+	res := fn.Signature.Results()
+	fresh := func() Val {
+		if res.Len() == 0 {
+			return Val{Typ: types.NewTuple()}
+		}
+		if res.Len() == 1 {
+			return c.freshVal("std."+fn.Name(), res.At(0).Type(), st.top)
+		}
+		out := Val{Typ: res}
+		for i := 0; i < res.Len(); i++ {
+			out.L = append(out.L, c.freshVal("std."+fn.Name(), res.At(i).Type(), st.top).L...)
+		}
+		return out
+	}
+	valueOnly := func(t types.Type) bool {
+		b, ok := t.Underlying().(*types.Basic)
+		return ok && b.Info()&(types.IsBoolean|types.IsNumeric|types.IsString) != 0
+	}
+	switch {
+	case path == "log" || (path == "fmt" && (strings.HasPrefix(fn.Name(), "Print") || strings.HasPrefix(fn.Name(), "Sprint"))):
+		for i := 0; i < res.Len(); i++ {
+			if !valueOnly(res.At(i).Type()) && res.At(i).Type().String() != "error" {
+				return Val{}, false
+			}
+		}
+		if fn.Name() == "Fatal" || fn.Name() == "Fatalf" || fn.Name() == "Fatalln" || strings.HasPrefix(fn.Name(), "Panic") {
+			return Val{}, false
+		}
+		c.trust("standard library output/formatting function " + key + ": no effect on verified state, does not panic, result unconstrained")
+		return fresh(), true
+	case path == "strings" || path == "strconv" || path == "unicode" || path == "unicode/utf8" || path == "math" || path == "math/bits" || path == "path" || path == "path/filepath":
+		ps := fn.Signature.Params()
+		for i := 0; i < ps.Len(); i++ {
+			if !valueOnly(ps.At(i).Type()) {
+				return Val{}, false
+			}
+		}
+		for i := 0; i < res.Len(); i++ {
+			if !valueOnly(res.At(i).Type()) && res.At(i).Type().String() != "error" {
+				return Val{}, false
+			}
+		}
+		c.trust("standard library function " + key + ": pure (scalar/string parameters and results), result unconstrained within its type")
+		return fresh(), true
+	}
+	return Val{}, false
 }
